@@ -21,6 +21,13 @@ pub type GenNr = u64;
 impl XRefTable {
 //@@ XRefTable::get
 }
+/// generation number of an entry; compressed objects have generation 0 (ISO 32000-1 7.5.8.3, type 2) -- as in unit xreftable
+pub open spec fn gen_of(e: XRef) -> u64 {
+    match e { XRef::Free { gen_nr, .. } => gen_nr, XRef::Raw { gen_nr, .. } => gen_nr, _ => 0 }
+}
+impl XRef {
+//@@ XRef::get_gen_nr
+}
 
 // ---- environment ------------------------------------------------------------------------------------------------
 #[verifier::external_body]
